@@ -490,6 +490,76 @@ theorem summarize_all_one {bs : List (List (List Res) × Nat)}
   simp only [summarize, h1, h2, h3, Nat.add_zero, Nat.add_sub_cancel]
   rw [hn, ratio_self hpos, f1_one.2]
 
+/-! ## manager level: a scene pools the frames (`PerceptionEvaluationManager.get_scene_result` hands
+`[[]] ++ [bucket of frame 1, bucket of frame 2, …]` and the summed ground-truth numbers to
+`MetricsScore.evaluate_classification`; a frame hands its own bucket) -/
+
+/-- the per-label input of the scene score: an empty list first, then the frames' buckets -/
+def sceneFrames (fs : List (List Res × Nat)) : List (List Res) := [] :: fs.map (·.1)
+
+/-- the counts of a nested accuracy are the sums over its frames -/
+theorem pooled_counts (frames : List (List Res)) (n : Nat) :
+    (accuracyNested frames n).num = (frames.map List.length).sum ∧
+    (accuracyNested frames n).tp = (frames.map countTp).sum ∧
+    (accuracyNested frames n).numGT = n := by
+  refine ⟨?_, ?_, rfl⟩
+  · simp [accuracyNested, accuracy, List.length_flatten]
+  · simp only [accuracyNested, accuracy, countTp, List.countP_flatten]; rfl
+
+/-- scene counts = sums of the frame counts (results, label-correct results, ground truths) -/
+theorem scene_counts_sum (fs : List (List Res × Nat)) :
+    let scene := accuracyNested (sceneFrames fs) (fs.map (·.2)).sum
+    scene.num = (fs.map fun f => (accuracy f.1 f.2).num).sum ∧
+    scene.tp = (fs.map fun f => (accuracy f.1 f.2).tp).sum ∧
+    scene.numGT = (fs.map fun f => (accuracy f.1 f.2).numGT).sum := by
+  intro scene
+  obtain ⟨h1, h2, h3⟩ := pooled_counts (sceneFrames fs) (fs.map (·.2)).sum
+  refine ⟨?_, ?_, ?_⟩
+  · rw [h1]; simp [sceneFrames, accuracy, Function.comp_def]
+  · rw [h2]; simp [sceneFrames, accuracy, countTp, Function.comp_def]
+  · rw [h3]; simp [accuracy]
+
+theorem countTp_sceneFrames_le {fs : List (List Res × Nat)} (h : ∀ f ∈ fs, countTp f.1 ≤ f.2) :
+    countTp (sceneFrames fs).flatten ≤ (fs.map (·.2)).sum := by
+  induction fs with
+  | nil => simp [sceneFrames, countTp]
+  | cons f fs ih =>
+    have h1 := h f (List.mem_cons_self ..)
+    have h2 := ih (fun g hg => h g (List.mem_cons_of_mem _ hg))
+    simp only [sceneFrames, List.map_cons, List.flatten_cons, List.nil_append, List.sum_cons, countTp,
+      List.countP_append] at h1 h2 ⊢
+    omega
+
+/-- the scene scores of a label lie in [0,1] whenever defined, if in every frame the label-correct results do
+not outnumber the frame's ground truths of that label -/
+theorem scene_in_unit {fs : List (List Res × Nat)} (h : ∀ f ∈ fs, countTp f.1 ≤ f.2) :
+    let scene := accuracyNested (sceneFrames fs) (fs.map (·.2)).sum
+    scene.accuracy.inUnit ∧ scene.precision.inUnit ∧ scene.recall.inUnit ∧ scene.f1.inUnit :=
+  accuracy_inUnit (countTp_sceneFrames_le h)
+
+/-- every frame perfect (all results label-correct, as many as ground truths) and at least one ground truth in the
+scene ⇒ the scene scores of the label are all 1 -/
+theorem scene_all_one {fs : List (List Res × Nat)}
+    (hall : ∀ f ∈ fs, (∀ r ∈ f.1, labelCorrect r = true) ∧ f.1.length = f.2) (hpos : 0 < (fs.map (·.2)).sum) :
+    let scene := accuracyNested (sceneFrames fs) (fs.map (·.2)).sum
+    scene.accuracy = .val 1 ∧ scene.precision = .val 1 ∧ scene.recall = .val 1 ∧ scene.f1 = .val 1 := by
+  intro scene
+  have hc : ∀ r ∈ (sceneFrames fs).flatten, labelCorrect r = true := by
+    intro r hr
+    simp only [sceneFrames, List.flatten_cons, List.nil_append, List.mem_flatten, List.mem_map] at hr
+    obtain ⟨l, ⟨f, hf, rfl⟩, hrl⟩ := hr
+    exact (hall f hf).1 r hrl
+  have hl : (sceneFrames fs).flatten.length = (fs.map (·.2)).sum := by
+    clear hpos hc
+    induction fs with
+    | nil => rfl
+    | cons f fs ih =>
+      have h1 := (hall f (List.mem_cons_self ..)).2
+      have h2 := ih (fun g hg => hall g (List.mem_cons_of_mem _ hg))
+      simp only [sceneFrames, List.map_cons, List.flatten_cons, List.nil_append, List.sum_cons, List.length_append] at h2 ⊢
+      omega
+  exact metrics_all_one hc hl hpos
+
 /-! ## the hypotheses are satisfiable: concrete non-trivial instances -/
 
 section Examples
@@ -538,6 +608,10 @@ example : ∃ s1, tlrStage1 true [e1, e2, e3] [g1, g2, g3] = .ok s1 ∧ e1 ∈ s
 /-- a bucket meeting the hypothesis of `metrics_in_unit` with a fractional score -/
 example : countTp [⟨e1, some g2⟩, ⟨e2, some g2⟩, ⟨e3, none⟩] ≤ 2 ∧
     (accuracy [⟨e1, some g2⟩, ⟨e2, some g2⟩, ⟨e3, none⟩] 2).recall = .val (1 / 2) := by decide +kernel
+
+/-- a two-frame scene: the first frame perfect, the second with a wrong pair; pooled recall 2/3 -/
+example : (accuracyNested (sceneFrames [([⟨e1, some g2⟩], 1), ([⟨e2, some g1⟩, ⟨e1, some g1⟩], 2)]) 3).recall = .val (2 / 3) ∧
+    countTp [⟨e2, some g1⟩, ⟨e1, some g1⟩] ≤ 2 := by decide +kernel
 
 end Examples
 
